@@ -105,8 +105,8 @@ class GBCExtendedHeader:
             self.sn.to_bytes(2, "big")
             + self.reserved.to_bytes(2, "big")
             + self.so_pv.encode()
-            + self.latitude.to_bytes(4, "big")
-            + self.longitude.to_bytes(4, "big")
+            + self.latitude.to_bytes(4, "big", signed=True)
+            + self.longitude.to_bytes(4, "big", signed=True)
             + self.a.to_bytes(2, "big")
             + self.b.to_bytes(2, "big")
             + self.angle.to_bytes(2, "big")
@@ -133,8 +133,8 @@ class GBCExtendedHeader:
         sn = int.from_bytes(header[0:2], "big")
         reserved = int.from_bytes(header[2:4], "big")
         so_pv = LongPositionVector.decode(header[4:28])
-        latitude = int.from_bytes(header[28:32], "big")
-        longitude = int.from_bytes(header[32:36], "big")
+        latitude = int.from_bytes(header[28:32], "big", signed=True)
+        longitude = int.from_bytes(header[32:36], "big", signed=True)
         a = int.from_bytes(header[36:38], "big")
         b = int.from_bytes(header[38:40], "big")
         angle = int.from_bytes(header[40:42], "big")
